@@ -388,11 +388,11 @@ func main() {
 					c.Failf("generic", "Geometry(%v) = %v, want nil", a, g)
 				}
 			case len(ra) == 1:
-				if !orb.Equal(g, ra[0]) {
+				if !refgeom.Equal(g, ra[0]) {
 					c.Failf("generic", "Geometry(%v) = %v, want %v", a, g, ra[0])
 				}
 			default:
-				if !orb.Equal(g, ra) {
+				if !refgeom.Equal(g, ra) {
 					c.Failf("generic", "Geometry(%v) = %v, want %v", a, g, ra)
 				}
 			}
@@ -432,7 +432,7 @@ func main() {
 			default:
 				wg = want
 			}
-			if !orb.Equal(g, wg) && !(g == nil && wg == nil) {
+			if !refgeom.Equal(g, wg) && !(g == nil && wg == nil) {
 				c.Failf("generic", "Geometry(%v) = %v, want %v", mls, g, wg)
 			}
 		}
